@@ -3,7 +3,7 @@ symbolic arguments on a subclass whose request() records its arguments."""
 import warnings
 from typing import Tuple
 
-from stone.backends.python_helpers import fmt_func
+from stone.backends.python_helpers import fmt_func, fmt_var
 from stone.backends.python_rsrc import stone_validators as bv
 from stone.ir import is_nullable_type, is_struct_type, is_tag_ref, is_union_type, is_void_type
 
@@ -98,7 +98,7 @@ def call(i: I8, s: S4, b: B16, f: F2, by_keyword: bool, res: int) -> bool:
                 ft = fld.data_type.data_type if is_nullable_type(fld.data_type) else fld.data_type
                 v, _ = gen.build(ft)
                 try:
-                    setattr(probe, fld.name, v)       # validity of the value is not the subject here
+                    setattr(probe, fmt_var(fld.name), v)       # validity of the value is not the subject here
                 except bv.ValidationError:
                     return True
                 expected[fld.name] = v
@@ -136,7 +136,7 @@ def call(i: I8, s: S4, b: B16, f: F2, by_keyword: bool, res: int) -> bool:
     else:
         good = good and type(request_arg) is gen.cls(arg_dt)
         for name, want in expected.items():
-            got = getattr(request_arg, name)
+            got = getattr(request_arg, fmt_var(name))      # attributes carry the Python-ised field name
             good = good and (got is None if want is None else (got == want and type(got) is type(want)))
     good = good and (ret is None if is_void_type(r.result_data_type) else ret is res)
     deprecated = [w for w in caught if issubclass(w.category, DeprecationWarning)]
